@@ -91,13 +91,15 @@ CaseTags(ev) ==
 \* L2: run-time selection by generated code.  key "k": six cardinal forms, "o": six ordinal forms, "m": cardinal one / other only,
 \* "tp" / "tpo": td_plural! / td_plural_ordinal! with arms one and _.
 RenderTags(ev) ==
-    LET ty == IF ev.key \in {"o", "tpo"} THEN "ordinal" ELSE "cardinal"
+    LET ty == IF ev.key \in {"o", "tpo", "tpo6"} THEN "ordinal" ELSE "cardinal"
         cat == Oracle.cats[ev.locale][ty][ev.tok]
         \* key d is defined (all six forms) in the default locale only: a defaulted plural still follows the rendered locale's rules
         \* (ev.cty: the Rust type the count was given in - the form depends on the number, not on its type)
         want == CASE ev.key \in {"k", "d"} -> FormText(M(cat, "cardinal"))
                   [] ev.key = "o" -> FormText(M(cat, "ordinal"))
                   [] ev.key = "m" -> FormText(M(FormFor({"one", "other"}, cat), "cardinal"))
+                  \* td_plural! / td_plural_ordinal! with an arm for every form (`_` and `other` are the same arm)
+                  [] ev.key \in {"tp6", "tpo6"} -> FormSym[cat]
                   [] OTHER -> FormSym[FormFor({"one", "other"}, cat)] IN
     IF ev.outcome # "Ok" THEN {"render-outcome:" \o ev.outcome}
     ELSE IF ev.out = want THEN {} ELSE {"run-time-form:" \o ev.key \o ":" \o ev.locale}
